@@ -159,7 +159,11 @@ impl<'a> Src<'a> {
         if num == 0 {
             return false;
         }
-        (self.below(den as usize) as u32) < num
+        if num >= den {
+            return true;
+        }
+        // the top `num` of `den` values count as true, so an exhausted source (0) is false
+        (self.below(den as usize) as u32) >= den - num
     }
     pub fn pick<'b, T>(&mut self, xs: &'b [T]) -> &'b T {
         &xs[self.below(xs.len())]
